@@ -253,6 +253,9 @@ class Gen:
     def __init__(self, rng, prof, budget=60, logger=False):
         self.r, self.w, self.budget = rng, prof, budget
         self.nclo = self.nh = self.na = self.nr = self.nf = self.nt = self.nv = 0
+        # the interpreter picks the macro arm / creation form from the static ids (actor id mod 4, closure id mod 4,
+        # ret / fwd id mod 3): start the counters anywhere so that every residue occurs in first position too
+        self.na, self.nclo, self.nr, self.nf = rng.randrange(0, 4), rng.randrange(0, 4), rng.randrange(0, 6), rng.randrange(0, 3)
         self.handles = {}        # hid -> (kind, target); kind in own act anon ret ret0 fwd fwd0 tok
         self.stable = set()
         self.root_of = {}        # actor id -> stable handle id
@@ -287,6 +290,15 @@ class Gen:
             if not destructive:
                 cand += [h for h in self.stable if h in self.handles and self.handles[h][0] in kinds]
         return self.r.choice(cand) if cand else None
+
+    def pick_actor(self, ctx, scope):
+        """A handle to an actor; from inside an actor's own body often that actor itself (the `[cx]` macro arms)."""
+        if isinstance(ctx, tuple) and self.r.random() < 0.35:
+            h = self.root_of.get(ctx[1])
+            if h is not None and h in self.handles:
+                self.st("self_target")
+                return h
+        return self.pick(["own", "act"], scope)
 
     def mk(self, scope, kind, target):
         h = self.fresh("nh")
@@ -480,7 +492,7 @@ class Gen:
 
     def g_call(self, ctx, depth, scope):
         r = self.r
-        h = self.pick(["own", "act"], scope)
+        h = self.pick_actor(ctx, scope)
         if h is None:
             return self.g_actor(ctx, depth, scope) if ctx != "none" and not self.reent else None
         a = self.handles[h][1]
@@ -561,7 +573,7 @@ class Gen:
                 return ("retsend", hr, r.randrange(0, 1000))
             return ("droph", hr)
         rid = self.fresh("nr")
-        ht = self.pick(["own", "act"], scope)
+        ht = self.pick_actor(ctx, scope)
         kind = r.choices(["clos", "to", "someto"], [5, 3, 2])[0]
         if kind == "clos" or ht is None:
             caps = []
@@ -614,7 +626,7 @@ class Gen:
             self.gone(hf)
             return ("droph", hf)
         f = self.fresh("nf")
-        ht = self.pick(["own", "act"], scope)
+        ht = self.pick_actor(ctx, scope)
         # bodies may only use forwarders created before this one (they are generated before it is registered)
         if ht is None or r.random() < 0.5:
             inner = []
@@ -716,6 +728,60 @@ class Gen:
         self.st("scen_var_timer_" + k)
         return out
 
+    def scen_prep_owner(self):
+        """Owner-count changes made BY calls that wait in the Prep queue: an actor created without init, calls to it
+           that capture / drop owning handles of their own target or create new owners (`owned`, kept in the actor's
+           state or in the environment), then the init step (the held calls are flushed by to_ready), then the owners
+           are dropped one by one with a run after each."""
+        r = self.r
+        a = self.fresh("na")
+        h = self.fresh("nh")
+        out, acts = [], [("actor", h, a, None)]
+        owners = [h]                     # owning handles expected to be alive after the flush, in the environment
+        calls = []
+        for _ in range(r.choice([1, 1, 2, 3])):
+            v = r.random()
+            if v < 0.3:
+                h2 = self.fresh("nh")
+                acts.append(("owned", h, h2))
+                calls.append(("call", h, ("clo", self.fresh("nclo"), 0, 0, [h2], [])))            # dropped with the captures
+            elif v < 0.45:
+                h2 = self.fresh("nh")
+                acts.append(("owned", h, h2))
+                calls.append(("call", h, ("clo", self.fresh("nclo"), 0, 0, [h2], [("droph", h2), ("iszombie", h)])))
+            elif v < 0.6:
+                h2, h3 = self.fresh("nh"), self.fresh("nh")
+                acts += [("owned", h, h2), ("anon", h2, h3)]
+                calls.append(("call", h, ("clo", self.fresh("nclo"), 0, 0, [h3], [])))
+            elif v < 0.72:
+                # a new owner that lives in a closure queued by the held call: released when that closure has run
+                h4 = self.fresh("nh")
+                calls.append(("call", h, ("clo", self.fresh("nclo"), 0, 0, [], [("owned", h, h4), ("defer", ("clo", self.fresh("nclo"), 0, 0, [h4], []))])))
+            else:
+                h4 = self.fresh("nh")
+                calls.append(("call", h, ("clo", self.fresh("nclo"), 0, 0, [], [("owned", h, h4)])))
+                owners.append(h4)
+        init = ("callprep", h, True, ("clo", self.fresh("nclo"), 0, 0, [], []))
+        if r.random() < 0.6:
+            out.append(("do", acts + calls))
+            out.append(("run", self.t, False))              # the calls are now held
+            out.append(("do", [init]))
+        else:
+            out.append(("do", acts + calls + [init]))       # held and flushed within one run
+        out.append(("run", self.t, False))
+        out.append(("do", [("iszombie", h), ("clone", h, self.fresh("nh"))]))
+        r.shuffle(owners)
+        keep = r.random() < 0.3
+        for i, o in enumerate(owners):
+            if keep and i == len(owners) - 1:
+                break
+            out.append(("do", [("droph", o)]))
+            self.t += 2 * r.randrange(0, 3)
+            out.append(("run", self.t, False))
+        out.append(("do", [("iszombie", self.nh)]))
+        self.st("scen_prep_owner")
+        return out
+
     # ---- whole programs ----
     def program(self):
         r = self.r
@@ -739,6 +805,9 @@ class Gen:
                 break
             if self.w["ret"] >= 3 and r.random() < 0.15:
                 prog += self.scen_var_timer()
+                continue
+            if self.w["own"] >= 3 and r.random() < (0.25 if self.w["own"] >= 9 else 0.08):
+                prog += self.scen_prep_owner()
                 continue
             prog.append(("do", self.acts("stk", 0, None)))
             for _ in range(r.choice([1, 1, 1, 2, 3])):
@@ -780,6 +849,40 @@ class Gen:
         return prog
 
 
+def count_forms(acts, stats, inside=False):
+    """Which public creation path / macro arm the interpreter takes (a function of the static ids, see
+       harness/r/src/main.rs fused_create and the Call / CallPrep / NewRet / NewFwd sites)."""
+    def bump(k):
+        stats[k] = stats.get(k, 0) + 1
+    for i, a in enumerate(acts):
+        op = a[0]
+        nxt = acts[i + 1] if i + 1 < len(acts) else None
+        if op in ("actor", "slabadd"):
+            fused = (nxt is not None and nxt[0] == "callprep" and nxt[1] == a[1] and nxt[3][2] == 0 and nxt[3][3] == 0
+                     and a[1] not in nxt[3][4])
+            f = a[2] % 4
+            if op == "actor":
+                name = {0: "actor_new!", 1: "ActorOwn::new", 2: "actor!(Type::init)" if fused else "actor_new!",
+                        3: "actor!(<Type>::init)" if fused else "actor_new!"}[f]
+            else:
+                name = {0: "ActorOwnSlab::add", 2: "ActorOwnSlab::add", 1: "actor_in_slab!(Type::init)" if fused else "ActorOwnSlab::add",
+                        3: "actor_in_slab!(<Type>::init)" if fused else "ActorOwnSlab::add"}[f]
+            bump("form %s%s" % (name, " from an actor" if inside else ""))
+        for x in a[1:]:
+            if isinstance(x, tuple) and x and x[0] == "clo":
+                count_forms(x[5], stats, inside or op in ("call", "callprep"))
+            elif isinstance(x, tuple) and x and x[0] in ("to", "someto") and isinstance(x[-1], tuple):
+                count_forms(x[-1][5], stats, True)
+            elif isinstance(x, tuple) and x and x[0] == "clos":
+                count_forms(x[-1], stats, inside)
+            elif isinstance(x, list) and x and isinstance(x[0], tuple):
+                if x[0][0] == "clo":
+                    for c in x:
+                        count_forms(c[5], stats, inside)
+                else:
+                    count_forms(x, stats, inside)
+
+
 def gen_cases(prop, n, seed, budget=60):
     rng = random.Random("%s-%d" % (prop, seed))
     prof = PROFILES.get(prop, PROFILES["C16"])
@@ -788,6 +891,9 @@ def gen_cases(prop, n, seed, budget=60):
         g = Gen(random.Random(rng.getrandbits(64)), prof, budget=rng.choice([12, 25, budget, budget, 2 * budget]),
                 logger=(prop in ("C20", "C18") or rng.random() < 0.15))
         cases.append(("g%s_%d_%d" % (prop, seed, i), g.program()))
+        for top in cases[-1][1]:
+            if top[0] == "do":
+                count_forms(top[1], g.stats)
         for k, v in g.stats.items():
             stats[k] = stats.get(k, 0) + v
     return cases, stats
